@@ -8,7 +8,7 @@ lockstep, and afterwards the server's contents are compared with the abstract co
 
 from __future__ import annotations
 
-from pymemcache.client.base import Client
+from pymemcache.client.base import Client, PooledClient
 from pymemcache.exceptions import MemcacheClientError
 
 from vmc import runner, simnet, stacks
@@ -83,7 +83,14 @@ def events(dn):
 
 
 def configs():
-    return [(prefix, dn) for prefix in (b"", b"p:") for dn in (True, False)]
+    base = [(prefix, dn, DEFAULT_VARIANT) for prefix in (b"", b"p:") for dn in (True, False)]
+    # the same histories with every reply piece ending just before a line feed (so a reply's last line arrives
+    # separately from what precedes it), and through a PooledClient
+    return base + [(b"p:", False, "lf/client"), (b"", True, "lf/client"), (b"p:", False, "segment/pooled"),
+                   (b"p:", True, "segment/pooled")]
+
+
+DEFAULT_VARIANT = "segment/client"
 
 
 # ---------------------------------------------------------------------------- state
@@ -105,16 +112,18 @@ def initial_states():
     return out
 
 
-def make_world(prefix, dn, snap):
+def make_world(prefix, dn, snap, variant=DEFAULT_VARIANT):
     srv_items, cas, flush, now = snap
-    net = simnet.SimNet(now=now, delivery="segment")  # replies to pipelined commands arrive one by one
+    delivery, stack = variant.split("/")
+    net = simnet.SimNet(now=now, delivery=delivery)  # 'segment': replies to pipelined commands arrive one by one
     stacks.PROXY.current = net.clock
     srv = net.add_server("h1", 11211, item_max=ITEM_MAX)
     for k, (v, f, e, c) in srv_items.items():
         srv.items[prefix + k.encode()] = Item(v, f, e, c)
     srv.cas_counter = cas
     srv.flush_deadline = flush
-    client = Client(stacks.H1, socket_module=net.module(), key_prefix=prefix, default_noreply=dn)
+    cls = Client if stack == "client" else PooledClient
+    client = cls(stacks.H1, socket_module=net.module(), key_prefix=prefix, default_noreply=dn)
     return net, srv, client
 
 
@@ -156,7 +165,7 @@ def allowed(ev, ssnap, tier):
     return True
 
 
-def step(prefix, dn, state, ev):
+def step(prefix, dn, state, ev, variant=DEFAULT_VARIANT):
     """Execute one event on the real client and on the abstract cache. Returns
     (new_state, got, want, content_diff)."""
     ssnap, asnap, tokens = state
@@ -167,7 +176,7 @@ def step(prefix, dn, state, ev):
         a.advance(args[0])
         items, cas, flush, now = ssnap
         return ((items, cas, flush, now + args[0]), a.dump(), tokens), None, None, None
-    net, srv, client = make_world(prefix, dn, ssnap)
+    net, srv, client = make_world(prefix, dn, ssnap, variant)
     tokens = dict(tokens)
     real_args = list(args)
     if name == "cas":
@@ -232,13 +241,13 @@ def _expand(job, chk):
     """Expand a batch of frontier states; returns via chk.info-free channel: stash in violations? No:
     results are collected in chk.counters and the special list chk.samples is not used; new states are
     returned through chk.classes as ('NEW', canon, state) tuples."""
-    (prefix, dn), tier, batch = job
+    (prefix, dn, variant), tier, batch = job
     evs = events(dn)
     for state, hist in batch:
         for i, ev in enumerate(evs):
             if not allowed(ev, state[0], tier):
                 continue
-            new, got, want, diff = step(prefix, dn, state, ev)
+            new, got, want, diff = step(prefix, dn, state, ev, variant)
             chk.add()
             chk.count("transitions")
             if ev[0] != "advance":
@@ -251,9 +260,12 @@ def _expand(job, chk):
                 if bad:
                     nr = ev[2].get("noreply")
                     sig = f"{bad[0]}|{ev[0]}|noreply={nr}|default_noreply={dn}|state={_stclass(state, ev)}"
-                    chk.violation(sig, f"Client(key_prefix={prefix!r}, default_noreply={dn}).{ev[0]}{ev[1]!r} {ev[2]} "
+                    if variant != DEFAULT_VARIANT:
+                        sig += "|" + variant
+                    cname = "PooledClient" if variant.endswith("pooled") else "Client"
+                    chk.violation(sig, f"{cname}(key_prefix={prefix!r}, default_noreply={dn}){'' if variant == DEFAULT_VARIANT else ' [' + variant + ']'}.{ev[0]}{ev[1]!r} {ev[2]} "
                                   f"after history {hist + (i,)} {bad[1]}",
-                                  {"prefix": prefix.decode(), "dn": dn, "history": list(hist), "event": i, "start": hist[0] if hist else None})
+                                  {"prefix": prefix.decode(), "dn": dn, "variant": variant, "history": list(hist), "event": i, "start": hist[0] if hist else None})
             k = canon(new[0], new[2])
             chk.classes.add(("NEW", k, _freeze(new), hist + (i,)))
 
@@ -295,7 +307,7 @@ def run(chk):
     total_states = 0
     all_fix = True
     for cfg in configs():
-        prefix, dn = cfg
+        prefix, dn, variant = cfg
         seen = {}
         frontier = []
         for name, ssnap, asnap, tokens in initial_states():
@@ -322,13 +334,13 @@ def run(chk):
                     frontier.append((_thaw(fr), hist))
         if frontier:
             all_fix = False
-            chk.cap(f"depth cap {max_depth} hit for config prefix={prefix!r} default_noreply={dn} "
+            chk.cap(f"depth cap {max_depth} hit for config prefix={prefix!r} default_noreply={dn} {variant} "
                     f"({len(frontier)} unexpanded states)")
         total_states += len(seen)
         chk.maximum("max_depth", depth)
         for k in list(seen)[:3000]:
-            chk.outcome((prefix, dn, k))
-        if cfg == (b"p:", False):
+            chk.outcome((prefix, dn, variant, k))
+        if cfg == (b"p:", False, DEFAULT_VARIANT):
             longest = max(seen.values(), key=len)
             evs = events(dn)
             chk.sample({"config": {"key_prefix": "p:", "default_noreply": dn}, "start": longest[0],
@@ -339,6 +351,7 @@ def run(chk):
 
 def replay(detail):
     prefix, dn = detail["prefix"].encode(), detail["dn"]
+    variant = detail.get("variant", DEFAULT_VARIANT)
     evs = events(dn)
     hist = detail["history"]
     start = hist[0]
@@ -348,7 +361,7 @@ def replay(detail):
             state = (ssnap, asnap, tokens)
     out = []
     for i in list(hist[1:]) + [detail["event"]]:
-        new, got, want, diff = step(prefix, dn, state, evs[i])
+        new, got, want, diff = step(prefix, dn, state, evs[i], variant)
         print(f"    {evs[i][0]}{evs[i][1]}{evs[i][2]} -> {got!r} (abstract: {want!r})")
         if evs[i][0] != "advance" and (not same(got, want) or diff is not None):
             out.append(f"{evs[i][0]}{evs[i][1]}: got {got!r}, want {want!r}, contents diff {diff!r}")
